@@ -7,7 +7,10 @@ use a5::core::utils::A5Cell;
 use serde_json::{json, Value};
 
 pub fn compact_call(cells: &[u64]) -> (bool, Vec<u64>) {
-    match catch(|| a5::compact(cells)) {
+    about_to("compact", json!({"cells": quads_list(&cells[..cells.len().min(64)]), "ncells": cells.len()}));
+    let r = catch(|| a5::compact(cells));
+    done();
+    match r {
         Ok(Ok(v)) => (true, v),
         _ => (false, vec![]),
     }
